@@ -424,32 +424,21 @@ func (r *Reader) FindBlockForKey(key []byte) ([]BlockLocator, error) {
 	defer r.mu.RUnlock()
 
 	var blocks []BlockLocator
-	seenBlocks := make(map[uint64]bool)
 
-	// First try binary search for efficiency - find the first block
-	// where the first key is >= our target key
+	// The index holds the FIRST key of every block, so the only block that can
+	// contain the key is the last one whose first key is <= the key
 	indexIter := r.indexBlock.Iterator()
-	indexIter.Seek(key)
+	for indexIter.SeekToFirst(); indexIter.Valid(); indexIter.Next() {
+		if bytes.Compare(indexIter.Key(), key) > 0 {
+			break
+		}
 
-	// If the seek fails, start from beginning to check all blocks
-	if !indexIter.Valid() {
-		indexIter.SeekToFirst()
-	}
-
-	// Process all potential blocks (starting from the one found by Seek)
-	for ; indexIter.Valid(); indexIter.Next() {
 		locator, err := ParseBlockLocator(indexIter.Key(), indexIter.Value())
 		if err != nil {
 			continue
 		}
 
-		// Skip blocks we've already seen
-		if seenBlocks[locator.Offset] {
-			continue
-		}
-		seenBlocks[locator.Offset] = true
-
-		blocks = append(blocks, locator)
+		blocks = []BlockLocator{locator}
 	}
 
 	return blocks, nil
